@@ -28,7 +28,6 @@ CONFIG = {
         "CanonicalJSONAssumeValid and CanonicalJSON o json.Marshal = encodeCanon on values without duplicate keys (C01)",
         "SHA-256 is a parameter H of the model (the driver plugs in VModel.Hash.sha256, validated by every event ID and content hash compared)",
         "base64: VModel.B64 (C17)",
-        "lenientByteLimitRoomVersions (eventV2.go) is transcribed by hand into VModel.EventParse.lenientVersions (not regenerated)",
     ],
     "assumptions": [
         "texts with ill-formed Unicode or duplicate keys anywhere are skipped (canonical form outside C01's specification); a repeated "
